@@ -22,7 +22,7 @@ CLAIMED = {
         text="Proved for all ploidies / SNV counts: mutation.compound_step visits every (haplotype, SNV) pair exactly once (table fill without dtype narrowing, shuffle bijection, call arguments); random_breaks returns contiguous non-empty intervals partitioning [0,n); structural.compound_step calls interval_step once per interval. Bounded: sweep recorder up to 400 SNVs, homozygosity screen vs independent single-SNV posterior, fixed-site re-insertion in DenovoMCMC._mcmc.",
         design_ref="DESIGN.md 4 (C15)", note=BASE_NOTE + "np.random.shuffle is a trusted bijection; random_breaks / _mcmc are not under U contract."),
     "C09": dict(category="other", technique='contract-based deductive verification: sidecar contracts on the real functions, VCs generated from /repo source by pyvc (loop invariants, ghost lemmas, callee contracts), discharged by z3' + " (arraymap included; structural label/option helpers assumed); " + 'run-time contracts of the property evaluated on the real functions over enumerated / seeded bounded domains against oracles written from the property statement (bounded stand-in, never counted as proved)',
-        text="Proved (modulo the assumed structural label/option contracts): assemble -- arraymap new/get/set (the trie with growth and flush, against a concrete path specification and a tree-ness invariant), cached wrappers, base_step, interval_step, both compound_steps, chain_swap_step and _denovo_assembler: every likelihood recorded in the cold trace equals LLK of the recorded genotype for every move sequence, temperature ladder and cache state. call -- log_likelihood_alleles_cached over the numba dict (coherence via injectivity of the G-field index and permutation invariance of the likelihood), gibbs_options, mh_options, compound_step, mcmc_sampler: every recorded likelihood equals LLKA of the recorded sorted genotype. pedigree -- log_likelihood_alleles_cached and gibbs_probabilities keep every cached value equal to the likelihood of the owning sample's own reads. Bounded: arraymap on exhaustive operation sequences (growth, flush) vs a dict model; recorded llk == recomputed llk for assemble, call and every entry of a caller-supplied pedigree cache; cache on/off same trajectory.",
+        text="Proved (modulo the assumed structural label/option contracts): assemble -- arraymap new/get/set (the trie with growth and flush, against a concrete path specification and a tree-ness invariant), cached wrappers, base_step, interval_step, both compound_steps, chain_swap_step and _denovo_assembler: every likelihood recorded in the cold trace equals LLK of the recorded genotype for every move sequence, temperature ladder and cache state. call -- log_likelihood_alleles_cached over the numba dict (coherence via injectivity of the G-field index and permutation invariance of the likelihood), gibbs_options, mh_options, compound_step, mcmc_sampler: every recorded likelihood equals LLKA of the recorded sorted genotype. pedigree -- log_likelihood_alleles_cached, gibbs_probabilities, metropolis_hastings_probabilities, allele_step, sample_step, compound_step and pair_allele_swap_step keep every cached value equal to the likelihood of the owning sample's own reads (the fixed defect F3 is a failing obligation). Bounded: arraymap on exhaustive operation sequences (growth, flush) vs a dict model; recorded llk == recomputed llk for assemble, call and every entry of a caller-supplied pedigree cache; cache on/off same trajectory.",
         design_ref="DESIGN.md 4 (C09)", note=BASE_NOTE + "Assumed (R-checked) contracts: structural.haplotype_segment_labels and the four step-option helpers (shapes / ranges), pedigree markov_blanket_log_allele_probability (abstract result); POSREADS: all likelihoods the sampler can meet are finite."),
     "C01": dict(category="other", technique='run-time contracts of the property evaluated on the real functions over enumerated / seeded bounded domains against oracles written from the property statement (bounded stand-in, never counted as proved)' + "; " + 'contract-based deductive verification: sidecar contracts on the real functions, VCs generated from /repo source by pyvc (loop invariants, ghost lemmas, callee contracts), discharged by z3' + " for base_step and the prior closed forms",
         text="Bounded, exhaustive: for all ordered genotypes of small instances (ploidy<=4, <=3 SNVs, bi/tri-allelic, gaps, counts) x inbreeding {0,.3} x inverse temperature {1,.6}: base_step and interval_step probability vectors captured from the real kernels satisfy detailed balance w.r.t. (lik x prior)^t over unordered genotypes and depend on the genotype only as a multiset; exchange acceptance formula and state swap; orchestration arguments. Proved: base_step hands random_choice exactly the closed-form Metropolis-Hastings kernel exp(min(0, temp x (dllk + dlprior) + log(copies after/before)))/(n-1) with the prior a function of the genotype's haplotype dosage (get_haplotype_dosage strong contract); chain_swap_step accepts with min(1, exp((U_j-U_i)(T_i-T_j))) and that acceptance is in detailed balance for the product of tempered targets (lemma); base_step / interval_step vectors are probability distributions with the stated frames, _denovo_assembler keeps llks[t] == LLK(genotypes[t]) for every chain, assemble prior == (Dirichlet-)multinomial closed form.",
@@ -42,8 +42,8 @@ CLAIMED = {
     "C17": dict(category="other", technique='run-time contracts of the property evaluated on the real functions over enumerated / seeded bounded domains against oracles written from the property statement (bounded stand-in, never counted as proved)',
         text="Bounded, exhaustive over parental genotypes on 3 alleles, ploidy 2/4(/6), balanced / unbalanced / clonal tau, known / unknown parents, lambda {0,.3}, error grids: exp(trio_log_pmf) equals a brute-force union-of-gametes model pointwise and sums to one; gamete_log_pmf sums to one; zero-error positivity iff trio_valid / duo_valid; PEDERR uses the right parent / tau column.",
         design_ref="DESIGN.md 4 (C17)", note=BASE_NOTE),
-    "C18": dict(category="other", technique='run-time contracts of the property evaluated on the real functions over enumerated / seeded bounded domains against oracles written from the property statement (bounded stand-in, never counted as proved)',
-        text="Bounded: 13 small pedigrees (founders, duo, trio, half-sibs, selfing, two generations, mixed ploidy, unbalanced and clonal gametes, two families) x seeded joint states x every (individual, allele copy): gibbs_probabilities == exact full conditional of prod L_i P(g_i|parents) (brute-force inheritance model); MH vector and parental allele exchange in detailed balance; reject restores the state.",
+    "C18": dict(category="other", technique='run-time contracts of the property evaluated on the real functions over enumerated / seeded bounded domains against oracles written from the property statement (bounded stand-in, never counted as proved)' + "; " + 'contract-based deductive verification: sidecar contracts on the real functions, VCs generated from /repo source by pyvc (loop invariants, ghost lemmas, callee contracts), discharged by z3' + ' for the way the sampler combines likelihood, assumed Markov-blanket prior and the shared cache',
+        text="Proved (with the inheritance prior as an assumed abstract function): gibbs_probabilities returns exp(own-reads likelihood + Markov-blanket prior) normalised; metropolis_hastings_probabilities is a distribution; both restore the state; pair_allele_swap_step restores the genotypes on rejection; allele_step / sample_step / compound_step keep all genotypes valid. Bounded: 13 small pedigrees (founders, duo, trio, half-sibs, selfing, two generations, mixed ploidy, unbalanced and clonal gametes, two families) x seeded joint states x every (individual, allele copy): gibbs_probabilities == exact full conditional of prod L_i P(g_i|parents) (brute-force inheritance model); MH vector and parental allele exchange in detailed balance; reject restores the state.",
         design_ref="DESIGN.md 4 (C18), 5 (F8)", note=BASE_NOTE),
     "C13": dict(category="exploration", technique='run-time contracts of the property evaluated on the real functions over enumerated / seeded bounded domains against oracles written from the property statement (bounded stand-in, never counted as proved)',
         text="Seeded collections of dyadic per-sample posteriors x thresholds: ALT iff occurrence >= threshold in some sample, REF first, REFMASKED iff REF below threshold, ALT order by summed dosage; program.call_sample_genotypes with prescribed traces: GT '.' exactly for excluded haplotypes, sorted, allele 0 unused when REFMASKED (incl. NOA), GP has one entry per genotype of the record, AFP/GP sum <= 1.",
